@@ -52,6 +52,10 @@ CATALOGUE = [
     dict(modules=[dict(interval=16, slow=40, dopoll=[(1, 'ok')], reads={'a': [(1, 'ok')]}),
                   dict(interval=8, slow=24, dopoll=[(1, 'ok')], reads={'a': [(1, 'ok')]}, readable=True)],
          env=[(20, 'interval', 0, 2), (60, 'interval', 0, 32), (100, 'interval', 1, 1)], horizon=260),
+    # constants with read functions are never polled, whatever their value and wherever they are declared
+    dict(modules=[dict(interval=4, slow=8, dopoll=[(1, 'ok')], reads={'a': [(0, 'ok')]},
+                       consts={'k0': (0.0, 'class'), 'k5': (5.0, 'class'), 'c0': (0.0, 'cfg'), 'c3': (3.0, 'cfg')}),
+                  dict(interval=8, slow=16, dopoll=[(0, 'ok')], reads={}, consts={'k0': (0.0, 'cfg')}, readable=True)], horizon=120),
     # very different slow intervals on one thread, the long one last (and first)
     dict(modules=[dict(interval=4, slow=4, dopoll=[(0, 'ok')], reads={'a': [(0, 'ok')], 'b': [(1, 'ok')]}),
                   dict(interval=8, slow=80, dopoll=[(1, 'ok')], reads={'a': [(0, 'ok')]})], horizon=260),
@@ -84,6 +88,8 @@ def random_scenario(rnd):
                  reads={p: [(rnd.choice(durs[:5]), rnd.choice(outs)) for _ in range(rnd.randint(1, 3))]
                         for p in rnd.sample(['a', 'b', 'd'], rnd.randint(0, 2))},
                  nopoll=['c'] if rnd.random() < 0.4 else [], readable=rnd.random() < 0.5 or mi == 0)
+        if rnd.random() < 0.25:
+            m['consts'] = {'k': (rnd.choice([0.0, 0.0, 2.0]), rnd.choice(['class', 'cfg']))}
         if rnd.random() < 0.3:
             m['writes'] = {'w': 1.0 if rnd.random() < 0.5 else (1.0, rnd.choice(outs[3:]))}
         if rnd.random() < 0.25:
@@ -115,7 +121,7 @@ def alpha(sc, r):
     mods = []
     for m in sc['modules']:
         polled = ['read_' + p for p in m.get('reads', {})]
-        nopoll = ['read_' + p for p in m.get('nopoll', [])]
+        nopoll = ['read_' + p for p in m.get('nopoll', [])] + ['read_' + p for p in m.get('consts', {})]
         durs = [d for sc_ in m.get('reads', {}).values() for d, _ in sc_]
         if m.get('rh'):
             polled += ['read_' + p for p in m['rh']['keys']]
